@@ -67,6 +67,13 @@ TRUSTED = [
     "the translator (ast -> Lean) for the expression language self.<base>, literals, np.pi, *, /, ** <int literal>",
     "simulation level: only scaled_roots (algebra) is proved; that the residuals of the real flow model satisfy its hypothesis "
     "R'(Sx) = T R(x), and that both runs return matching SI solutions, is sampled by the oracle (tolerance 1e-8 relative), not proved",
+    "simulation stratum, what is compared: the ROOTS of the discrete equations. Both runs use two harness overrides of the model: "
+    "(a) Newton stops on a unit-invariant criterion (increment relative to the iterate per variable, 1e-12, 3..15 iterations) instead "
+    "of porepy's absolute, unit-dependent norms; (b) every Jacobian system is solved after row/column equilibration. Without (b) "
+    "the comparison measures the sparse LU, not the units: choosing units is a row/column scaling, the mixed-dimensional Jacobian "
+    "has condition number 1e16 unscaled and 8e28 with m=1000, scipy's spsolve then returns a solution with relative residual ~1 and "
+    "Newton crawls (corpus/C43/sim_fractured_m1000_conditioning.json; with m=1024 the LU pivots exactly as unscaled). Floating-point "
+    "conditioning of the linear solver in badly scaled units is outside the property (exact arithmetic: scaled_roots)",
 ]
 EXPLANATION = ("FULL for conversion: model = Units constructor, attribute lookup, unit-string grammar and conversion loop as coded, "
                "material constants construction / to_units; theorems convert_roundtrip, convert_compose (+ exponent addition), "
@@ -773,13 +780,46 @@ def _sim_class():
             v = np.concatenate([np.arange(1, sd.num_cells + 1) * q for sd in sds])
             return src + pp.wrap_as_dense_ad_array(v, name="c43_source")
 
+        def solve_linear_system(self):
+            # Choosing units IS a row/column scaling of the Jacobian.  The default sparse LU (SuperLU via scipy) is not
+            # invariant under it: with m = 1000 the mixed-dimensional Jacobian has condition number ~1e29 in the raw units
+            # (1e16 already unscaled, from the different magnitudes of the equations) and spsolve returns garbage, with
+            # m = 1024 it happens to pivot as in the unscaled run.  The property is about the discrete equations, so both
+            # runs solve the row/column-equilibrated system (two sweeps), which is the same matrix up to rounding.
+            import scipy.sparse as sps
+            import scipy.sparse.linalg as spla
+            A, b = self.linear_system
+            A = sps.csr_matrix(A)
+            dr, dc = np.ones(A.shape[0]), np.ones(A.shape[1])
+            for _ in range(2):
+                B = sps.diags(dr) @ A @ sps.diags(dc)
+                rmax = np.asarray(abs(B).max(axis=1).todense()).ravel()
+                dr = dr / np.where(rmax > 0, rmax, 1.0)
+                B = sps.diags(dr) @ A @ sps.diags(dc)
+                cmax = np.asarray(abs(B).max(axis=0).todense()).ravel()
+                dc = dc / np.where(cmax > 0, cmax, 1.0)
+            B = (sps.diags(dr) @ A @ sps.diags(dc)).tocsc()
+            y = spla.spsolve(B, dr * b)
+            return np.atleast_1d(dc * y)
+
         def check_convergence(self, nonlinear_increment, residual, reference_residual, nl_params):
-            # the built-in criterion compares unit-dependent norms with fixed tolerances; to compare ROOTS of the two
-            # residuals, iterate Newton a fixed number of times (quadratic convergence: far beyond 1e-8 after 6)
+            # the built-in criterion compares unit-dependent norms with fixed tolerances; here: at least 3 Newton
+            # iterations and a unit-invariant criterion (increment relative to the iterate, per variable block, 1e-12),
+            # at most 15 iterations; whether the two runs then agree is what the oracle checks
             self._c43_it = getattr(self, "_c43_it", 0) + 1
             if np.any(np.isnan(nonlinear_increment)):
+                self._c43_it = 0
                 return False, True
-            done = self._c43_it >= 6
+            x = self.equation_system.get_variable_values(iterate_index=0)
+            rel = 0.0
+            for var in self.equation_system.variables:
+                ind = self.equation_system.dofs_of([var])
+                ref = max(np.max(np.abs(x[ind])), 1e-300) if ind.size else 1.0
+                if ind.size:
+                    rel = max(rel, float(np.max(np.abs(nonlinear_increment[ind])) / ref))
+            self._c43_rel = rel
+            # variables that vanish identically (no pressure drop, no source) never satisfy a relative criterion: cap at 15
+            done = self._c43_it >= 3 and (rel < 1e-12 or self._c43_it >= 15)
             if done:
                 self._c43_it = 0
             return done, False
@@ -819,7 +859,7 @@ def _sim_run(case, units):
     with warnings.catch_warnings():
         warnings.simplefilter("ignore")
         m = _sim_model(case, units)
-        pp.run_time_dependent_model(m, {"max_iterations": 20, "nl_convergence_tol": 1e-10, "nl_convergence_tol_res": 1e-10})
+        pp.run_time_dependent_model(m, {"max_iterations": 30, "nl_convergence_tol": 1e-10, "nl_convergence_tol_res": 1e-10})
     sds = m.mdg.subdomains()
     p = m.equation_system.get_variable_values(variables=[m.pressure_variable], time_step_index=0)
     out = {"pressure": m.units.convert_units(p, "Pa", to_si=True)}
